@@ -44,7 +44,8 @@ HID int verif_clock_real = 0;                            /* 1: pass through */
 static uint64_t clock_calls = 0;
 
 EXP void verif_clock_set(int64_t us, int64_t step_us){ verif_clock_us = us; verif_clock_step_us = step_us; }
-EXP void verif_clock_jump(int64_t us){ verif_clock_us += us; }
+static uint64_t clock_jumps = 0;
+EXP void verif_clock_jump(int64_t us){ verif_clock_us += us; clock_jumps++; }
 EXP int64_t verif_clock_get(void){ return verif_clock_us; }
 EXP uint64_t verif_clock_calls(void){ return clock_calls; }
 EXP void verif_clock_passthrough(int on){ verif_clock_real = on; }
@@ -72,6 +73,7 @@ enum { EV_OPEN = 1, EV_WRITE = 2, EV_CLOSE = 3 };
 struct wrec { int kind; int stream; int64_t off; int64_t len; unsigned char* data; char mode[8]; };
 static struct wrec* wlog = NULL;
 static int wlog_n = 0, wlog_cap = 0;
+static uint64_t wlog_total = 0;
 static int wlog_on = 0;
 #define MAXTRACK 32
 static FILE* trk_f[MAXTRACK];
@@ -88,6 +90,7 @@ static struct wrec* wlog_push(void){
         wlog = __real_realloc(wlog, sizeof(struct wrec) * wlog_cap);
     }
     struct wrec* w = &wlog[wlog_n++];
+    wlog_total++;
     memset(w, 0, sizeof(*w));
     return w;
 }
@@ -183,6 +186,7 @@ static struct hdr* q_tail = NULL;
 static uint64_t q_bytes = 0;
 static uint64_t q_cap = 8ULL << 20;
 static uint64_t serial = 0;
+static uint64_t st_fill_alt = 0;
 static uint64_t st_malloc = 0, st_free = 0, st_realloc = 0, st_moved = 0, st_foreign = 0, st_live = 0;
 static char heap_err[512];
 static int heap_err_n = 0;
@@ -262,6 +266,7 @@ static void* v_alloc(size_t size, int zero){
     h->magic = MAGIC_LIVE; h->size = size; h->serial = ++serial;
     memset(h->pad, CANARY, sizeof(h->pad));
     memset(P(h), zero ? 0 : fill_malloc, size);
+    if (!zero && fill_malloc != FILL_MALLOC) st_fill_alt++;
     memset(P(h) + size, CANARY, TAIL);
     h->prev = NULL; h->next = live_head;
     if (live_head) live_head->prev = h;
@@ -381,6 +386,12 @@ EXP void verif_heap_clear_error(void){ heap_err[0] = 0; heap_err_n = 0; }
 EXP void verif_heap_flush_quarantine(void){ q_evict(0); }
 EXP void verif_heap_stats(uint64_t* out){
     out[0] = st_malloc; out[1] = st_free; out[2] = st_realloc; out[3] = st_moved; out[4] = st_foreign; out[5] = st_live; out[6] = q_bytes;
+}
+/* cumulative seam activity, for the evidence: [0] allocations served by the hostile allocator, [1] reallocs that were forced to move, [2] blocks
+ * poisoned on free, [3] allocations filled with a non-default garbage byte, [4] clock reads answered by the simulated clock, [5] clock jumps,
+ * [6] fwrite/fopen/fclose events logged */
+EXP void verif_seam_counters(uint64_t* out){
+    out[0] = alloc_level ? st_malloc : 0; out[1] = st_moved; out[2] = st_free; out[3] = st_fill_alt; out[4] = clock_calls; out[5] = clock_jumps; out[6] = wlog_total;
 }
 /* is p inside a live block we own?  (used by oracles: "pointer into particle storage") */
 EXP int64_t verif_heap_block_size(void* p){
